@@ -62,6 +62,15 @@ Theorem C09_analyze_walk_no_unbound : forall e vs io ts i r,
   analyze_expr e (mk_env io vs) ts = Ok i -> covers r vs io -> walk r i = Ok tt.
 Proof. exact analyze_walk_no_unbound. Qed.
 
+(* NOT PROVED (kept as the pinned goal): a diagnostic is located at a node of the
+   program — every span it carries is the span of a node, of its super token, of
+   its identifier or of a name of a binder group / field the node introduces.
+   On the implementation this is checked per case, more strongly: the reported
+   spans must be exactly those of the injected token(s) (tools/props/c09.py). *)
+Definition C09_goal_error_located : Prop :=
+  forall e en ts x, analyze_expr e en ts = Err x ->
+  forall sp, In sp (error_spans x) -> exists n, In n (nodes e) /\ In sp (node_spans n).
+
 (* ---- non-vacuity ---- *)
 Definition sp0 : span := (0, 0).
 Definition idn (n : N) : ident := {| id_value := [n]; id_span := (n, n + 1) |}.
